@@ -7,7 +7,10 @@ Tie to the source:
  (b) eager oracles (NumPy / exact integers, independent of the Lean model) on the real mask: the four limits,
      maximality inside a sector and among block survivors, exact count, non-binding ⇒ all kept;
  (c) `svd_with_truncation` / `eigh_with_truncation` on random symmetric tensors: structure, limits, maximality and
-     the error identity ‖a − U S V‖ = ‖S_discarded‖ (contract of theorem `truncated_error` + oracle).
+     the error identity ‖a − U S V‖ = ‖S_discarded‖ (contract of theorem `truncated_error` + oracle).  svd_with_truncation is
+     run under every solver policy of the NumPy backend (fullrank, lowrank, block_arnoldi, block_propack; the partial ones with
+     D_block / k_block as integer or per-sector dictionary, sectors wide enough for scipy's iterative solvers included), with
+     fix_signs and non-default Uaxis/Vaxis; the reference spectrum always comes from the full-rank solver.
 Values in (a)/(b) are integers k scaled by 2^-shift, tolerances dyadic p/2^a, so every product `tol*max` and every
 comparison the real code performs in float64 is exact.
 """
@@ -352,9 +355,9 @@ def run_masks(ctx, n_cases, deadline):
 # part B: factorizations with truncation
 # ----------------------------------------------------------------------------------------------
 
-def gen_leg(rng, sid, s):
+def gen_leg(rng, sid, s, kmin=1, kmax=3):
     pool = charge_pool(sid)
-    k = min(len(pool), rng.randint(1, 3))
+    k = min(len(pool), rng.randint(kmin, kmax))
     ts = sorted(rng.sample(pool, k))
     return {"s": s, "t": [list(t) for t in ts], "D": [rng.randint(1, 4) for _ in ts]}
 
@@ -396,11 +399,14 @@ def gen_fact_case(rng, kind):
     if kind == "svd":
         rec["policy"] = rng.choice(["fullrank"] * 5 + ["lowrank"] * 3 + ["block_arnoldi", "block_propack"])
         nd = rng.randint(2, 4)
-        rec["legs"] = [gen_leg(rng, sid, rng.choice((1, -1))) for _ in range(nd)]
+        if rec["policy"] == "fullrank":
+            rec["legs"] = [gen_leg(rng, sid, rng.choice((1, -1))) for _ in range(nd)]
+        else:   # more charge sectors, so that per-sector dictionaries have something to tell apart
+            rec["legs"] = [gen_leg(rng, sid, rng.choice((1, -1)), 2, 4) for _ in range(nd)]
         # sectors large enough for the iterative solvers behind the partial policies (scipy svds):
         # block_*: min(D)*0.1 > k ; lowrank: k < min(D)-1 and D0*D1 > 5000
         r = rng.random()
-        if rec["policy"] != "fullrank" and r < 0.2:
+        if rec["policy"] != "fullrank" and r < 0.25:
             big = rec["policy"] == "lowrank" or r < 0.04
             rec["legs"] = [gen_leg(rng, sid, rng.choice((1, -1))) for _ in range(2)]
             for l in rec["legs"]:
@@ -430,7 +436,7 @@ def gen_fact_case(rng, kind):
     return rec
 
 
-def gen_fact_limits(rng, full, nonbinding=False, sid=None, partial=False):
+def gen_fact_limits(rng, full, nonbinding=False, sid=None, partial=False, wide=False):
     """float limits for a factorization given the full spectrum {t: weights}.
 
     partial=True (block-wise partial-SVD policy): the number of triples to solve for per sector must be given, either through
@@ -468,11 +474,13 @@ def gen_fact_limits(rng, full, nonbinding=False, sid=None, partial=False):
         lim["tol"] = lim["tolb"] = [0, 1]
         lim["Dt"] = rng.choice([None, None, lim["Dt"]])
     dvals = [None, 0, 1, 2, 3] + ([max(sizes), max(sizes) + 2] if partial else [])
+    if wide:    # wide sectors: few triples requested, which is when the library switches to the iterative solvers
+        dvals = [None, 0, 1, 1, 1, 2, 2, 3, 5]
     r = rng.random()
     if r < (0.15 if partial else 0.35):
         lim["Db"] = None
     elif r < (0.4 if partial else 0.7):
-        lim["Db"] = rng.choice([0, 1, 2, 3])
+        lim["Db"] = rng.choice([0, 1, 1, 2, 2, 3] if wide else [0, 1, 2, 3])
     else:
         keys = [t for t in full if rng.random() < (0.85 if partial else 0.7)]
         items = [[list(t), rng.choice(dvals)] for t in keys]
@@ -728,9 +736,10 @@ def run_facts(ctx, n_svd, n_eigh, deadline):
             full = diag_blocks(S0)
             if not full:
                 ctx.count(f"{kind}:gen-empty"); continue
-            eval_fact_case(ctx, rec, gen_fact_limits(rng, full), "binding")
+            partial = rec.get("policy", "fullrank") in PARTIAL
+            eval_fact_case(ctx, rec, gen_fact_limits(rng, full, sid=rec["sym"], partial=partial, wide="size" in rec), "binding")
             if done % 3 == 0:
-                eval_fact_case(ctx, rec, gen_fact_limits(rng, full, nonbinding=True), "nonbinding")
+                eval_fact_case(ctx, rec, gen_fact_limits(rng, full, nonbinding=True, sid=rec["sym"], partial=partial), "nonbinding")
             done += 1
 
 
@@ -750,14 +759,20 @@ def run(ctx):
         "truncate_multiplets=False and mask_f=None (the multiplet heuristics are outside the property's statement)",
         "LAPACK svd/eigh contracts (a = U S V, isometries) are validated per case to 1e-11, not proved",
         "eigh_with_truncation checked for which in {LM, LR}; for SR/SM the code negates the weights so every tol >= 0 discards everything",
+        "partial-SVD policies (lowrank, block_arnoldi, block_propack): a per-sector limit is always supplied (documented requirement); a "
+        "D_block dictionary is non-empty (an empty one makes svd() call min() of an empty sequence); an explicit k_block is either the only "
+        "per-sector limit (D_block left at inf) or >= D_block in every sector and, as a dictionary, names every sector (the default for "
+        "sectors absent from k_block is an open TODO in the source); policy 'krylov' (marked WIP/BUG in the source), 'randomized' (torch "
+        "only) and eigh_with_truncation(policy='block_lanczos') (documented as fullrank only; it raises) are not exercised",
+        "a LinAlgError 'did not converge' raised by scipy's iterative solver under a partial policy is an honest failure, counted, not a violation",
     ]
     import yastn
     ctx.extra["yastn_path"] = yastn.__file__
     t0 = time.time()
     if ctx.quick:
-        n_masks, n_svd, n_eigh, budget = 2500, 200, 80, 55
+        n_masks, n_svd, n_eigh, budget = 2500, 400, 80, 55
     else:
-        n_masks, n_svd, n_eigh, budget = 20000, 1500, 500, 600
+        n_masks, n_svd, n_eigh, budget = 20000, 3000, 500, 600
     run_masks(ctx, n_masks, t0 + budget * 0.6)
     run_facts(ctx, n_svd, n_eigh, t0 + budget)
     fixed_cases(ctx)
